@@ -190,6 +190,7 @@ def writer_level(chk):
     except ImportError:
         return
     c13_writers.run(chk)
+    c13_writers.run_same_set_twice(chk)
     chk.recheck("geometry conversion")
 
 
